@@ -170,7 +170,11 @@ func sessionLiteralPackerFresh(p *gen.Pkg, fd *ast.FuncDecl) (bool, string, erro
 	if err != nil {
 		return false, "", err
 	}
-	return k == "fresh", "Packer: " + p.Src(pf), nil
+	src := p.Src(pf)
+	if len(src) > 70 {
+		src = src[:70] + "…"
+	}
+	return k == "fresh", "Packer: " + src, nil
 }
 
 func directPackerShared(p *gen.Pkg) (bool, string, error) {
